@@ -117,6 +117,7 @@ void init_macros(void);
 void define_macro(char *name, char *buf);
 void undef_macro(char *name);
 Token *preprocess(Token *tok);
+void convert_preprocessed_tokens(Token *tok);
 
 //
 // parse.c
